@@ -75,9 +75,10 @@ VALUE_CLASSES = {'names-undefined-unless-sequence', 'none-dropped-at-frame-start
 
 
 def not_about_cut(d, cfg, text, start, o, r, cls):
-    """True when the failure is of a known AST-shape class of C01 AND the same disagreement (same documented
-    outcome, same real outcome) shows on the twin grammar with every cut removed: it then belongs to C01, not
-    to C05.  Anything else (in particular every unexplained failure) stays a C05 failure."""
+    """True when the failure is of a known AST-shape class of C01 AND the twin grammar with every cut removed
+    shows the same disagreement (same acceptance on both sides, and the same outcomes or at least a failure of
+    the same class): it then belongs to C01, not to C05.  Anything else (in particular every unexplained
+    failure) stays a C05 failure."""
     if not set(cls.split('+')) <= VALUE_CLASSES:
         return False
     rules = []
@@ -90,11 +91,18 @@ def not_about_cut(d, cfg, text, start, o, r, cls):
     if twin == d or not S.wellformed(twin):
         return False
     try:
-        o2 = S.evaluate(twin, text, start, **cfg)
+        o2, info2 = S.evaluate_info(twin, text, start, **cfg)
         r2 = bC01.real_parse(S.to_model(twin, **cfg), text, start)
     except Exception:  # noqa: BLE001
         return False
-    return o2 == o and r2 == r
+    if isinstance(o2, S.Unspecified) or o2.ok != o.ok or r2[0] != r[0]:
+        return False
+    if o2 == o and r2 == r:
+        return True
+    # same acceptance on both sides; the twin must fail as well, and with the same class
+    if bC01.agrees(o2, r2) or bC01._admissible(twin, text, start, cfg, r2, info2['open']) is not None:
+        return False
+    return bC01.classify(twin, text, start, cfg, r2)[0] == cls
 
 
 def _has_cut(d):
